@@ -34,7 +34,7 @@ func verifRow(cols int, symbolic bool) []byte {
 // Verif_C06_ccitt_roundtrip: CCITTFax (Group 4, Group 3 1-D, Group 3 2-D)
 // round trips for one or two (thorough: three) rows, plain, with end-of-line
 // codes and with byte-aligned rows; widths around the byte and make-up code
-// boundaries; the first row of narrow images is symbolic.
+// boundaries; the first row of 8-pixel images is symbolic.
 func Verif_C06_ccitt_roundtrip() {
 	verifrt.Unwind(40000)
 	cols := []int{1, 8, 9, 63, 64, 65, 128, 1728}[verifrt.Choice("columns", 6+2*verifrt.Tier())]
@@ -50,7 +50,7 @@ func Verif_C06_ccitt_roundtrip() {
 	rows := 1 + verifrt.Choice("rows", 2+verifrt.Tier())
 	var data []byte
 	for i := 0; i < rows; i++ {
-		data = append(data, verifRow(cols, i == 0 && cols <= 9)...)
+		data = append(data, verifRow(cols, i == 0 && cols == 8)...)
 	}
 	sink := &verifrt.Sink{}
 	w, err := NewWriter(sink, p)
@@ -83,7 +83,7 @@ func Verif_C07_ccitt_vs_independent() {
 	rows := 1 + verifrt.Choice("rows", 2)
 	var data []byte
 	for i := 0; i < rows; i++ {
-		data = append(data, verifRow(cols, i == 0 && cols <= 9)...)
+		data = append(data, verifRow(cols, i == 0 && cols == 8)...)
 	}
 	sink := &verifrt.Sink{}
 	w, err := NewWriter(sink, p)
